@@ -86,6 +86,7 @@ def check_config(ctx, cfg):
         native(ctx, "attaches_to_decoder", False, f"csr.Decoder.add(monitor.bus)+elaborate: {type(e).__name__}: {e}", cfg)
 
     regs = csrtarget.regs_from_map(mon.bus.memory_map)
+    csrtarget.range_covers_width(ctx, regs, cfg["dw"], cfg)
     by_name = {R["name"]: R for R in regs}
     en, pe = by_name["enable"], by_name["pending"]
     probes = csrtarget.elem_signals(regs)
@@ -126,7 +127,7 @@ def check_config(ctx, cfg):
 
 def main(run: Run):
     cfgs = configs(run.tier, run.seed)
-    run.require(*(csrtarget.READ_CLAUSES + csrtarget.WRITE_CLAUSES + GLUE))
+    run.require(*(csrtarget.READ_CLAUSES + csrtarget.WRITE_CLAUSES + GLUE + ["range_covers_width"]))
     run.assumptions += BASE_ASSUMPTIONS_L2
     run.functions["amaranth_soc.csr.event.EventMonitor.elaborate"] = "per-configuration (bounded: event count, width, alignment, modes); flattened with the real Multiplexer/registers/Monitor"
     run.functions["amaranth_soc.csr.event.EventMonitor.__init__"] = "bounded: register sizing/addresses taken from the memory map; attachment clauses evaluated natively"
